@@ -950,7 +950,6 @@ def check_program(item):
                 else:
                     coarse[i], _, _ = sampler_candidates(pir.region, params["N_partner"], params["sampler_cap"])
 
-        feasible = {i: [] for i in sideU.bases}  # (point, scene)
         nfeasible_scenes = 0
 
         def search_focus(ev, side, fullc, coarsec, i, on_accept):
@@ -1011,7 +1010,11 @@ def check_program(item):
             if sh is None:
                 # region of the pruned position depends on other objects: evaluate the pruned
                 # program with every random input forced to this scene's values
-                r = evP.forced({j: p for j, p in scene["pts"].items()}, scene["aux"])
+                try:
+                    r = evP.forced({j: p for j, p in scene["pts"].items()}, scene["aux"])
+                except _Unaligned:
+                    bump("forced_region_unaligned")
+                    return
                 bump("forced_region_evaluations")
                 if r is None or i not in r["regions"]:
                     # P rejects/cannot build this scene: judge through its concrete region
